@@ -61,12 +61,19 @@ func (k Keeper) BeginBlocker(ctx sdk.Context) {
 	}
 }
 
-func (k Keeper) CheckAndLiquidateUnhealthyPosition(ctx sdk.Context, position *types.Position, pool types.Pool, ammPool ammtypes.Pool) (isHealthy, closeAttempted bool, health math.LegacyDec, err error) {
+func (k Keeper) CheckAndLiquidateUnhealthyPosition(parentCtx sdk.Context, position *types.Position, pool types.Pool, ammPool ammtypes.Pool) (isHealthy, closeAttempted bool, health math.LegacyDec, err error) {
+	// Process the position on a cached context: a failed close or a recovered panic midway must not leave partial effects behind
+	ctx, write := parentCtx.CacheContext()
 	defer func() {
 		if r := recover(); r != nil {
 			if msg, ok := r.(string); ok {
 				ctx.Logger().Error(msg)
 			}
+			closeAttempted = true
+			err = fmt.Errorf("panic while liquidating position: %v", r)
+		}
+		if err == nil || !closeAttempted {
+			write()
 		}
 	}()
 	h, err := k.GetPositionHealth(ctx, *position)
@@ -102,12 +109,19 @@ func (k Keeper) CheckAndLiquidateUnhealthyPosition(ctx sdk.Context, position *ty
 	return isHealthy, true, h, nil
 }
 
-func (k Keeper) CheckAndCloseAtStopLoss(ctx sdk.Context, position *types.Position, pool types.Pool, ammPool ammtypes.Pool) (underStopLossPrice, closeAttempted bool, err error) {
+func (k Keeper) CheckAndCloseAtStopLoss(parentCtx sdk.Context, position *types.Position, pool types.Pool, ammPool ammtypes.Pool) (underStopLossPrice, closeAttempted bool, err error) {
+	// Process the position on a cached context: a failed close or a recovered panic midway must not leave partial effects behind
+	ctx, write := parentCtx.CacheContext()
 	defer func() {
 		if r := recover(); r != nil {
 			if msg, ok := r.(string); ok {
 				ctx.Logger().Error(msg)
 			}
+			closeAttempted = true
+			err = fmt.Errorf("panic while closing position at stop loss: %v", r)
+		}
+		if err == nil || !closeAttempted {
+			write()
 		}
 	}()
 	h, err := k.GetPositionHealth(ctx, *position)
